@@ -1,2 +1,266 @@
-//! C06 workload (under construction).
-fn main() {}
+//! C06 — bitwise logic, bit/byte access and bit counting vs the BITS-wide
+//! binary expansion of the value.
+
+use num_bigint::BigUint;
+use num_traits::{One, ToPrimitive, Zero};
+use ruint::Uint;
+use vmon::{an, au, big, gen, uint, Arg, Mon};
+
+vmon::widths!(exec; 0, 1, 2, 3, 7, 8, 9, 16, 31, 32, 60, 63, 64, 65, 100, 127, 128, 129, 160, 192, 193,
+    250, 255, 256, 257, 320, 384, 512, 521, 1024, 2048, 4096);
+
+fn bit_of(v: &[u64], i: usize) -> bool {
+    i / 64 < v.len() && (v[i / 64] >> (i % 64)) & 1 == 1
+}
+
+fn exec<const B: usize, const L: usize>(m: &mut Mon, op: &str, a: &[Arg]) {
+    match op {
+        "logic" => {
+            let (x, y): (Uint<B, L>, Uint<B, L>) = (uint(a[0].u()), uint(a[1].u()));
+            let (lx, ly) = (a[0].u(), a[1].u());
+            let e_and: Vec<u64> = lx.iter().zip(ly).map(|(p, q)| p & q).collect();
+            let e_or: Vec<u64> = lx.iter().zip(ly).map(|(p, q)| p | q).collect();
+            let e_xor: Vec<u64> = lx.iter().zip(ly).map(|(p, q)| p ^ q).collect();
+            let e_not = gen::canon(lx.iter().map(|p| !p).collect(), B);
+            let mx = gen::max(B);
+            m.nontrivial(!(gen::is_zero(lx) || lx == &mx[..]) || !(gen::is_zero(ly) || ly == &mx[..]));
+            m.obs(|| format!("and={} or={} xor={} not(a)={}", big::hex(&e_and), big::hex(&e_or), big::hex(&e_xor), big::hex(&e_not)));
+            macro_rules! shapes {
+                ($opname:literal, $op:tt, $opa:tt, $e:ident) => {
+                    if let Some(v) = m.must(|| x $op y) { m.eq_uint(concat!($opname, ".vv"), &v, &$e); }
+                    if let Some(v) = m.must(|| x $op &y) { m.eq_uint(concat!($opname, ".vr"), &v, &$e); }
+                    if let Some(v) = m.must(|| &x $op y) { m.eq_uint(concat!($opname, ".rv"), &v, &$e); }
+                    if let Some(v) = m.must(|| &x $op &y) { m.eq_uint(concat!($opname, ".rr"), &v, &$e); }
+                    if let Some(v) = m.must(|| { let mut z = x; z $opa y; z }) { m.eq_uint(concat!($opname, "=.v"), &v, &$e); }
+                    if let Some(v) = m.must(|| { let mut z = x; z $opa &y; z }) { m.eq_uint(concat!($opname, "=.r"), &v, &$e); }
+                };
+            }
+            shapes!("op&", &, &=, e_and);
+            shapes!("op|", |, |=, e_or);
+            shapes!("op^", ^, ^=, e_xor);
+            if let Some(v) = m.must(|| !x) {
+                m.eq_uint("op!.v", &v, &e_not);
+            }
+            if let Some(v) = m.must(|| !&x) {
+                m.eq_uint("op!.r", &v, &e_not);
+            }
+            if let Some(v) = m.must(|| x.not()) {
+                m.eq_uint("not", &v, &e_not);
+            }
+        }
+        "count" => {
+            let x: Uint<B, L> = uint(a[0].u());
+            let lx = a[0].u();
+            let bv = big::big(lx);
+            let mx = gen::max(B);
+            m.nontrivial(!(gen::is_zero(lx) || lx == &mx[..]));
+            let bitlen = bv.bits() as usize;
+            let ones = (0..B).filter(|&i| bit_of(lx, i)).count();
+            let lz = B - bitlen;
+            let lo = (0..B).rev().take_while(|&i| bit_of(lx, i)).count();
+            let tz = (0..B).take_while(|&i| !bit_of(lx, i)).count();
+            let to = (0..B).take_while(|&i| bit_of(lx, i)).count();
+            m.obs(|| format!("bit_len={bitlen} ones={ones} lz={lz} lo={lo} tz={tz} to={to}"));
+            if let Some(v) = m.must(|| x.leading_zeros()) {
+                m.eq("leading_zeros", &v, &lz);
+            }
+            if let Some(v) = m.must(|| x.leading_ones()) {
+                m.eq("leading_ones", &v, &lo);
+            }
+            if let Some(v) = m.must(|| x.trailing_zeros()) {
+                m.eq("trailing_zeros", &v, &tz);
+            }
+            if let Some(v) = m.must(|| x.trailing_ones()) {
+                m.eq("trailing_ones", &v, &to);
+            }
+            if let Some(v) = m.must(|| x.count_ones()) {
+                m.eq("count_ones", &v, &ones);
+            }
+            if let Some(v) = m.must(|| x.count_zeros()) {
+                m.eq("count_zeros", &v, &(B - ones));
+            }
+            if let Some(v) = m.must(|| x.bit_len()) {
+                m.eq("bit_len", &v, &bitlen);
+            }
+            if let Some(v) = m.must(|| x.byte_len()) {
+                m.eq("byte_len", &v, &((bitlen + 7) / 8));
+            }
+            if let Some(v) = m.must(|| x.is_power_of_two()) {
+                m.eq("is_power_of_two", &v, &(ones == 1));
+            }
+            // reverse_bits over exactly BITS bits
+            let mut rev = gen::zero(B);
+            for i in 0..B {
+                if bit_of(lx, i) {
+                    let j = B - 1 - i;
+                    rev[j / 64] |= 1 << (j % 64);
+                }
+            }
+            if let Some(v) = m.must(|| x.reverse_bits()) {
+                m.eq_uint("reverse_bits", &v, &rev);
+            }
+            // next power of two: least 2^k >= value, None if it does not fit
+            let np: Option<BigUint> = {
+                let p = if bv.is_zero() || ones == 1 { if bv.is_zero() { BigUint::one() } else { bv.clone() } } else { big::p2(bitlen) };
+                if big::fits(&p, B) {
+                    Some(p)
+                } else {
+                    None
+                }
+            };
+            if let Some(v) = m.must(|| x.checked_next_power_of_two()) {
+                match (&v, &np) {
+                    (Some(v), Some(p)) => {
+                        m.eq_uint("checked_next_power_of_two.value", v, &big::limbs(p, L));
+                    }
+                    (None, None) => {}
+                    _ => m.fail("checked_next_power_of_two.option", &format!("{:?}", np.as_ref().map(big::bhex)), &format!("{v:?}")),
+                }
+            }
+            match &np {
+                Some(p) => {
+                    if let Some(v) = m.must_in("next_power_of_two", || x.next_power_of_two()) {
+                        m.eq_uint("next_power_of_two", &v, &big::limbs(p, L));
+                    }
+                }
+                None => {
+                    m.must_panic(|| x.next_power_of_two(), "no power of two fits");
+                }
+            }
+            // most significant bits: (v, 0) if bit_len <= 64 else (v >> (bit_len-64), bit_len-64)
+            let e_msb = if bitlen <= 64 {
+                (bv.to_u64().unwrap(), 0usize)
+            } else {
+                ((&bv >> (bitlen - 64)).to_u64().unwrap(), bitlen - 64)
+            };
+            if let Some(v) = m.must(|| x.most_significant_bits()) {
+                m.eq("most_significant_bits", &v, &e_msb);
+            }
+        }
+        "index" => {
+            let x: Uint<B, L> = uint(a[0].u());
+            let lx = a[0].u();
+            let i = a[1].us();
+            let bytes = (B + 7) / 8;
+            m.nontrivial(true);
+            let e_bit = i < B && bit_of(lx, i);
+            if let Some(v) = m.must(|| x.bit(i)) {
+                m.eq("bit", &v, &e_bit);
+            }
+            for val in [true, false] {
+                let mut e = lx.to_vec();
+                if i < B {
+                    if val {
+                        e[i / 64] |= 1 << (i % 64);
+                    } else {
+                        e[i / 64] &= !(1 << (i % 64));
+                    }
+                }
+                if let Some(v) = m.must(|| {
+                    let mut z = x;
+                    z.set_bit(i, val);
+                    z
+                }) {
+                    m.eq_uint(if val { "set_bit.true" } else { "set_bit.false" }, &v, &e);
+                }
+            }
+            let e_byte = if i < bytes { Some(((lx[i / 8] >> (8 * (i % 8))) & 0xff) as u8) } else { None };
+            m.obs(|| format!("bit={e_bit} byte={e_byte:?}"));
+            if let Some(v) = m.must(|| x.checked_byte(i)) {
+                m.eq("checked_byte", &v, &e_byte);
+            }
+            match e_byte {
+                Some(b) => {
+                    if let Some(v) = m.must_in("byte", || x.byte(i)) {
+                        m.eq("byte", &v, &b);
+                    }
+                }
+                None => {
+                    m.must_panic(|| x.byte(i), "index >= BYTES");
+                }
+            }
+        }
+        _ => panic!("harness: unknown op {op}"),
+    }
+    let _ = BigUint::zero();
+}
+
+fn workload(m: &mut Mon, bits: usize) {
+    let bd = gen::boundary(bits);
+    let mut r = m.stream("c06.directed", bits);
+    // structured values: single bits / single zeros at every position (thinned on wide types),
+    // runs of ones starting / ending at every limb boundary
+    let mut values: Vec<Vec<u64>> = bd.clone();
+    let step = if bits <= 257 { 1 } else if bits <= 1024 { 7 } else { 61 };
+    let mut p = 0;
+    while p < bits {
+        values.push(gen::pow2(p, bits));
+        let mut v = gen::max(bits);
+        v[p / 64] &= !(1 << (p % 64));
+        values.push(v);
+        p += step;
+    }
+    for k in (0..=bits).step_by(64) {
+        for d in [0usize, 1, 63] {
+            if k + d <= bits {
+                values.push(gen::ones(k + d, bits)); // run ending at k+d
+                let lo = gen::ones(k + d, bits);
+                values.push(gen::max(bits).iter().zip(lo.iter()).map(|(h, l)| h & !l).collect()); // run starting at k+d
+            }
+        }
+    }
+    for v in &values {
+        if !m.keep() {
+            continue;
+        }
+        m.case("count", bits, vec![au(v)]);
+        let w = r.pick(&values).clone();
+        m.case("logic", bits, vec![au(v), au(&w)]);
+        m.case("logic", bits, vec![au(v), au(v)]);
+    }
+    // every index in [0, BITS+64] on a few values
+    let idx_values: Vec<Vec<u64>> = vec![gen::max(bits), gen::zero(bits), gen::alphabet(&mut r, bits), gen::uniform(&mut r, bits),
+                                         gen::ones(bits / 2, bits)];
+    for v in &idx_values {
+        for i in 0..=bits + 64 {
+            if bits > 1024 && i % 3 != 0 && i + 70 < bits {
+                continue;
+            }
+            if !m.keep() {
+                continue;
+            }
+            m.case("index", bits, vec![au(v), an(i)]);
+        }
+    }
+    if bits <= 1024 && !m.is_light() {
+        m.mark_exhaustive(format!("BITS={bits}: every index in [0, BITS+64] for bit/set_bit/byte/checked_byte on 5 values"));
+    }
+    for i in [usize::MAX, usize::MAX / 8, usize::MAX / 64, 1 << 32] {
+        m.case("index", bits, vec![au(&gen::max(bits)), an(i)]);
+    }
+    // random
+    let mut r = m.stream("c06.random", bits);
+    let iters = m.iters(if bits <= 256 { 5000 } else if bits <= 1024 { 2000 } else { 500 });
+    for i in 0..iters {
+        if i % 256 == 0 && m.time_up() {
+            break;
+        }
+        let a = gen::hostile(&mut r, bits);
+        let b = gen::hostile(&mut r, bits);
+        m.case("count", bits, vec![au(&a)]);
+        m.case("logic", bits, vec![au(&a), au(&b)]);
+        m.case("index", bits, vec![au(&a), an(r.below(bits + 66))]);
+    }
+}
+
+fn main() {
+    let mut m = Mon::new("C06", dispatch);
+    if !m.replay_if_requested() {
+        for &bits in WIDTHS {
+            if m.width_enabled(bits) {
+                workload(&mut m, bits);
+            }
+        }
+    }
+    m.finish();
+}
